@@ -3,6 +3,7 @@ import E3fpVerif.DriverDb
 import E3fpVerif.DriverMetrics
 import E3fpVerif.DriverFprinter
 import E3fpVerif.DriverConfig
+import E3fpVerif.DriverPipeline
 open Lean E3fpVerif
 
 structure St where
@@ -18,6 +19,7 @@ def dispatch (st : St) (j : Json) : St × Json :=
     else if op.startsWith "met." then return (st, ← metricsOp op j)
     else if op.startsWith "fpr." || op.startsWith "fpo." then return (st, ← fprinterOp op j)
     else if op.startsWith "cfg." then return (st, ← configOp op j)
+    else if op.startsWith "pipe." then return (st, ← pipelineOp op j)
     else .error s!"unknown op {op}" : Except String (St × Json)) with
   | .ok r => r
   | .error e => (st, Json.mkObj [("driver_error", e)])
